@@ -17,6 +17,7 @@ from . import c02
 
 ID = "C01"
 BUDGET = {"quick": 36000, "thorough": 400000}
+FUZZ = {"thorough": 4000}  # coverage-guided stage: libFuzzer runs per worker (x16), see vk/fuzz.py
 RULE = (
     "Hypothesis: (rule in the 18 rule classes, profile valid for that rule, configuration, seed or "
     "script for every random choice).  Ranked profiles: 1-6 declared candidates, 1-8 ballots, "
